@@ -150,6 +150,20 @@ double *arrNewAlloc(int n, int *len) {
     return a;
 }
 
+int *arrNewPat(int n, int *len) {
+    Guard g;
+    // released with delete[] through the free_pattern
+    int *a = new int[n > 0 ? n : 1];
+    for (int i = 0; i < n; i++) a[i] = 900 + i;
+    *len = n;
+    sim_handout(a, "newarr");
+    return a;
+}
+int arrSum(const int *arr, int n) { Guard g; int s = 0; for (int i = 0; i < n; i++) s += arr[i]; return s + 1000000 * n; }
+void charGrow(char *s) { Guard g; std::strcat(s, "!!"); }
+Item &refItem() { Guard g; return *borrowItem(); }
+std::vector<double> vecRetD(int n) { Guard g; std::vector<double> v; for (int i = 0; i < n; i++) v.push_back(0.25 + i); return v; }
+
 // ---------------------------------------------------------------- extras (see simlib.hpp)
 std::vector<double> extraVecD(int n) { Guard g; return std::vector<double>(n > 0 ? n : 0, 1.5); }
 const std::string *extraStrOwned() { Guard g; std::string *s = new std::string("extra"); sim_handout(s, "string"); return s; }
